@@ -713,6 +713,8 @@ pub struct Builder<'a> {
     pub forged_new: Vec<PoolKey>,
     /// staking transactions built earlier in this batch
     pub batch_stakes: Vec<TxHash>,
+    /// outputs of this batch's transactions that were sent to the destruction address (never created)
+    pub batch_burnt: Vec<CoinID>,
 }
 
 impl<'a> Builder<'a> {
@@ -744,7 +746,7 @@ impl<'a> Builder<'a> {
                 }
             }
         }
-        Builder { w, p, avail: w.wallet.clone(), mult: snap.fee_mult, height: snap.height, pools, batch_created: vec![], batch_spent: vec![], batch_faucet_fees: 0, pool_liqs: snap.pools.iter().filter(|(k, p)| k.left() != k.right() && p.liqs > 0).map(|(k, p)| (*k, p.liqs)).collect(), pool_states: snap.pools.clone(), forged_new, batch_stakes: vec![] }
+        Builder { w, p, avail: w.wallet.clone(), mult: snap.fee_mult, height: snap.height, pools, batch_created: vec![], batch_spent: vec![], batch_faucet_fees: 0, pool_liqs: snap.pools.iter().filter(|(k, p)| k.left() != k.right() && p.liqs > 0).map(|(k, p)| (*k, p.liqs)).collect(), pool_states: snap.pools.clone(), forged_new, batch_stakes: vec![], batch_burnt: vec![] }
     }
 
     /// Destination address of a generic output: usually one of the harness's covenants; one in sixteen is a *twin* of
@@ -932,6 +934,16 @@ impl<'a> Builder<'a> {
                 denom: Denom::NewCustom,
                 additional_data: adata(tp.data),
             });
+            if tp.amount % 16 == 9 {
+                // a very large issue of the new token: 129-200 further outputs of the maximal coin value (together above
+                // 2^127, still a valid 128-bit total) to an address nobody can spend from, so that the wallet and the
+                // pools never see them; two such transactions in one block declare more than 2^128 between them
+                let mut nobody = CovSpec::True.hash();
+                nobody.0 .0[3] ^= 0x55;
+                for _ in 0..(129 + (tp.mparam % 72) as usize) {
+                    tx.outputs.push(CoinData { covhash: nobody, value: CoinValue(MAX_COINVAL), denom: Denom::NewCustom, additional_data: Default::default() });
+                }
+            }
         }
         // now and then split off a small MEL coin: liquidity withdrawals need a coin they can spend entirely on fees
         let mut reserved = BTreeMap::new();
@@ -1544,6 +1556,9 @@ impl<'a> Builder<'a> {
                         self.batch_spent.clone()
                     }
                 };
+                // ... or an output that a sibling of this batch sent to the destruction address: it names a
+                // transaction of the batch and an index that transaction declares, but no coin
+                let pool = if !self.batch_burnt.is_empty() && (j % 3 == 2 || pool.is_empty()) { self.batch_burnt.clone() } else { pool };
                 if pool.is_empty() {
                     return (b, None, false);
                 }
@@ -1590,6 +1605,9 @@ impl<'a> Builder<'a> {
                 let n = b.tx.outputs.len();
                 b.tx.outputs[j % n].covhash = Address(HashVal::default());
                 still_valid = b.valid;
+                if n <= 255 {
+                    self.batch_burnt.push(CoinID::new(b.tx.hash_nosigs(), (j % n) as u8));
+                }
             }
             _ => {}
         }
